@@ -13,7 +13,9 @@ _REDUCE = ('sum', 'prod', 'min', 'max', 'mean', 'median', 'std', 'var', 'all', '
 def _unfit(w):
     k = w['klass']
     if w['what'] == _CELL:
-        return k.get('ref_fits_row_dtype') is False
+        # the true result is not representable in the row dtype, or (float / complex row dtype) an input already is not
+        return k.get('ref_fits_row_dtype') is False or (k.get('row_kind') in ('f', 'c') and k.get('big_int') is True
+                                                        and k.get('line_kind') in ('i', 'u'))
     return k.get('any_ref_unfit') is True
 
 
@@ -37,15 +39,16 @@ def c15_values_consolidation_big_int(w):
     results beyond 2**53 lose their low bits."""
     k = w['klass']
     return (w['what'] == _CELL and k.get('fn') in ('cumsum', 'cumprod') and k.get('axis') == 0 and k.get('line_kind') in ('i', 'u')
-            and k.get('values_kind') == 'f' and k.get('ref_fits_row_dtype') is False)
+            and k.get('values_kind') in ('f', 'c') and (k.get('ref_fits_row_dtype') is False or k.get('big_int') is True))
 
 
 @predicate
 def c15_complex_std_var_multiblock(w):
-    """std / var over complex columns of a multi-block frame: blocks are cast to float64 (imaginary part dropped)."""
+    """complex columns of a multi-block frame under a function with a float out dtype: std / var always (dtypes=(float64,)),
+    mean / median when the row dtype is not complex (e.g. object): blocks are cast to float64, imaginary part dropped."""
     k = w['klass']
-    return (w['what'] == _CELL and k.get('fn') in ('std', 'var') and k.get('axis') == 0 and k.get('layout') == 'multi'
-            and k.get('line_kind') == 'c')
+    return (w['what'] == _CELL and k.get('axis') == 0 and k.get('layout') == 'multi' and k.get('line_kind') == 'c'
+            and (k.get('fn') in ('std', 'var') or (k.get('fn') in ('mean', 'median') and k.get('row_kind') != 'c')))
 
 
 @predicate
@@ -131,6 +134,16 @@ def c15_datetime_skipna_ignored(w):
     if w['what'] == 'series_path_differs_from_model':
         return True
     return w['what'] == _CELL and k.get('series_path_ok') is False and k.get('row_kind') in ('M', 'm')
+
+
+@predicate
+def c15_datetime_logical_skipna_ignored(w):
+    """all / any(skipna=True) on axis 1 of a frame with a datetime64 / timedelta64 block holding NaT: the block is routed to
+    the non-skipna function, which rejects NaT, although each (object) row reduces."""
+    k = w['klass']
+    return (w['what'] == _RAISED and k.get('fn') in ('all', 'any') and k.get('skipna') is True and k.get('axis') == 1
+            and any(c in (k.get('kinds') or '') for c in 'Mm') and k.get('lines_missing') in ('some', 'some_line_all')
+            and k.get('exception') == 'TypeError')
 
 
 @predicate
